@@ -32,10 +32,10 @@ CLAIMED = {
 
 CLAIMED.update({
     "C14": ("Proof that Task.TempDir() is a single path segment without '/', starts with the temp prefix and is at most 255 bytes for every task (all names, paths, params, tags), and a structural proof obligation (go/ssa scan, re-run on every check) that TempDir and everything it calls is deterministic: no map range, select, channel operation, time or randomness on the way to the result; the three sorted-keys helpers are proved to return the strictly sorted list of the map's keys (unique).",
-            "Assumed: SHA-1/hex/ToLower/regexp library contracts (length, alphabet), sort.Strings sorts in place, the task's identity fields are not written after NewTask. Injectivity of the name over task identities does NOT hold (finding F6: pieces are concatenated without separators) and the preimage contract is not yet under proof; both are listed in DESIGN.md.",
+            "Assumed: SHA-1/hex/ToLower/regexp library contracts (length, alphabet), sort.Strings sorts in place, the task's identity fields are not written after NewTask. Injectivity of the name over task identities does NOT hold: the obligation TempDir.atcall.pieces-stay-separable fails (known finding F6: pieces are concatenated without separators, shown on the real code by findings/F6_tempdir_collision_test.go). Which pieces enter the hash is pinned per loop (first piece = raw process name is proved; the other pieces are covered by the determinism scan and the mutant corpus, not by a preimage contract); collision resistance of SHA-1 itself is assumed.",
             "3/C14"),
-    "C15": ("Proof of the placeholder expansion of formatCommand for every pattern, port map and value: at the single substitution site each port type (o, os, i, joined i, p, t) gets exactly the documented replacement (temp path re-encoded, FIFO path, input path with ../ prefix unless basename, joined sub-stream paths in order, parameter/tag value), a missing value never reaches the substitution (Fail), all occurrences are replaced, and placeholders are parsed as name|modifier...; proof that applyPathModifiers applies the documented meaning of each documented modifier, one per iteration, left to right (loop step contract), with the regular-expression case analysis proved as lemmas.",
-            "Assumed: library contracts of regexp (per pattern literal: capture groups of the two modifier patterns, basename/dirname replacement), strings.Replace/Split/Join; MatchString on literal patterns is interpreted by the SMT theory of regular expressions; modifiers outside the documented grammar (e.g. '%s/a/b/') are outside the step contract. Port discovery (initPortsFromCmdPattern) and SetOut patterns are not yet under contract.",
+    "C15": ("Proof of the placeholder expansion of formatCommand for every pattern, port map and value: at the single substitution site each port type (o, os, i, joined i, p, t) gets exactly the documented replacement (temp path re-encoded, FIFO path, input path with ../ prefix unless basename, joined sub-stream paths in order, parameter/tag value), a missing value never reaches the substitution (Fail), all occurrences are replaced, and placeholders are parsed as name|modifier...; proof that applyPathModifiers applies the documented meaning of each documented modifier, one per iteration, left to right (loop step contract), with the regular-expression case analysis proved as lemmas. Output-path patterns: the path function built by Process.SetOut gets, at its single substitution site, the documented value per placeholder type (input path, parameter, tag, another out-port's path), modifiers applied when present, unknown types and missing values stop the workflow. Default output name (initDefaultPathFuncs): structural determinism scan plus proof that the pieces are exactly base names of the inputs, sanitised process name, name_value of parameters, name_value of tags, port name and extension, each group in sorted-name order, joined by dots. Port discovery (initPortsFromCmdPattern): port type and name come from the placeholder, the extension is the text after the dot, every o/os placeholder gets an out-port (os flagged streaming), every i an in-port, every p without a fixed value a parameter port.",
+            "Assumed: library contracts of regexp (per pattern literal: capture groups of the two modifier patterns, basename/dirname replacement), strings.Replace/Split/Join; MatchString on literal patterns is interpreted by the SMT theory of regular expressions; modifiers outside the documented grammar (e.g. '%s/a/b/') are outside the step contract. the path function of another out-port called from a SetOut pattern is an uninterpreted function of (function value, task) assumed free of side effects; capture-group axioms re.ext.group / re.join.group for the two literals of port discovery; NewOutPort/InitOutPort etc. are executed inline. Placeholder-like text inside inserted values is expanded again (known findings F5 for commands, F11 for SetOut patterns).",
             "3/C15"),
     "C20": ("Proof that mergeStringAuditInfoMaps returns the union, that extractAuditInfosByID lists the root, is keyed by record ID and is closed under Upstream (hence lists every node of the tree), and that sortAuditInfosByStartTime returns a permutation of the records (every record listed, nothing else, none twice) with a comparison function that orders by start time then ID.",
             "Assumed: sort.SliceStable permutes in place and orders by the given less function; rendering through text/template and executing the generated Bash script are outside this technique (not applicable clauses). The tie-collapse defect F7 was repaired (fix: commit) and is recorded as fixed.",
